@@ -507,6 +507,30 @@ def restore_cache(keys):
             rec.model_factory.try_get_model(mt, c, rec.options)
 
 
+ORIGIN = {}     # id(cached model) -> [model type, culture, options] it was REQUESTED with (whatever key the tree files it under)
+
+
+def cache_origins():
+    return [ORIGIN.get(id(v)) for v in lib.cache_dict().values()]
+
+
+def restore_cache_by_origin(origins):
+    """As restore_cache, but by the request that created each cached model instead of by cache key: a modified tree may
+    file models under keys that no longer say which culture or options they were built for."""
+    want = [tuple(o) for o in origins if o]
+    cache = lib.cache_dict()
+    with barrier.quiet():
+        gone = [cache.pop(k) for k, v in list(cache.items()) if tuple(ORIGIN.get(id(v)) or ()) not in want]
+    if gone:
+        barrier.on_evict(gone)
+    have = {tuple(ORIGIN.get(id(v)) or ()) for v in cache.values()}
+    for (mt, c, o) in want:
+        kind = KIND_OF_MODEL_TYPE.get(mt)
+        if (mt, c, o) not in have and kind is not None and isinstance(c, str) and o is not None:
+            rec = lib.recognizer_class(kind)(c, lib.options_value(kind, o), False)
+            rec.model_factory.try_get_model(mt, c, rec.options)
+
+
 class Env:
     """Per-worker state: golden table, pool, seams installed once."""
 
@@ -539,6 +563,10 @@ class Env:
 
         def register_model_in_cache(self_, model_type_name, culture, options, model):
             orig_insert(self_, model_type_name, culture, options, model)
+            try:
+                ORIGIN[id(model)] = [model_type_name, culture, None if options is None else int(options)]
+            except Exception:   # noqa
+                ORIGIN[id(model)] = None
             barrier.on_cache_insert(model)
         ModelFactory.register_model_in_cache = register_model_in_cache
         self.n_barrier_classes = barrier.install()
@@ -573,9 +601,12 @@ def execute_plan(prop, plan, env, recorded=None):
     pool, golden = ctx['pool'], ctx['golden']
     if plan['cold']:
         evict(plan['cold'], plan.get('cold_cultures'))
-    if recorded is not None and recorded.get('cache_keys') is not None:
+    if recorded is not None and recorded.get('cache_origins') is not None:
+        restore_cache_by_origin(recorded['cache_origins'])
+    elif recorded is not None and recorded.get('cache_keys') is not None:
         restore_cache(recorded['cache_keys'])
     cache_keys = sorted((_key_list(k) for k in lib.cache_dict()), key=repr)
+    origins = cache_origins()
     barrier.rebuild(lib.cache_dict())
     clients = [baton.Client(c['cid'], c['ops'], c['placement']) for c in plan['clients']]
     policy = make_policy(plan, len(clients), recorded)
@@ -681,7 +712,7 @@ def execute_plan(prop, plan, env, recorded=None):
                                        'detail': 'every simulated caller was waiting for a library lock held by another waiting caller'}})
     ctor_delta = {('%s|%s' % k): env.ctor_count[k] - ctor0.get(k, 0) for k in env.ctor_count if env.ctor_count[k] != ctor0.get(k, 0)}
     record = {
-        'first': sched.first_cid, 'cache_keys': cache_keys,
+        'first': sched.first_cid, 'cache_keys': cache_keys, 'cache_origins': origins,
         'switches': sched.switches, 'finishes': sched.finishes, 'faults_fired': sched.faults_fired,
         'steps': sched.global_step, 'barrier_hits': barrier.STATE['hits'] - hits0, 'dirty_hits': sched.dirty_hits, 'lock_switches': sched.lock_switches, 'capped': sched.capped,
         'results': results, 'ctor': ctor_delta, 'sites': sorted(sched.sites),
@@ -886,7 +917,7 @@ def run_batch(job):
         for v in violations:
             v.update({'run': idx, 'batch': job['batch'], 'plan': plan, 'prewarm': [list(x) for x in sorted(ctx['dt_focus'])],
                       'recorded': {'first': record['first'], 'switches': record['switches'],
-                                   'finishes': record['finishes'], 'cache_keys': record['cache_keys'],
+                                   'finishes': record['finishes'], 'cache_keys': record['cache_keys'], 'cache_origins': record['cache_origins'],
                                    'faults_fired': record['faults_fired']}})
             rep['violations'].append(v)
         if len(rep['violations']) >= 4:
